@@ -178,11 +178,16 @@ def packageOf (n : Node) : Package :=
     supplier := (Node.persons n "Suppliers").head?.map (fun p => { name := clientString p, typ := clientOrg p })
     originator := (Node.persons n "Originators").head?.map (fun p => { name := clientString p, typ := clientOrg p }) }
 
+/-- a file's copyright text: trimmed, `NONE` when nothing is left -/
+def fileCopyright (s : String) : String :=
+  let c := Str.trimSpace s
+  if c = "" then "NONE" else c
+
 def fileOf (n : Node) : File :=
   { id := n.id, name := Node.str n "Name", fileTypes := Node.strs n "FileTypes"
     checksums := checksumsOf n
     licenseConcluded := Node.str n "LicenseConcluded", licenseComments := Node.str n "LicenseComments"
-    copyright := (let c := Str.trimSpace (Node.str n "Copyright"); if c = "" then "NONE" else c)
+    copyright := fileCopyright (Node.str n "Copyright")
     comment := Node.str n "Comment", attribution := Node.strs n "Attribution" }
 
 def relsOf (nl : NodeList) : List Rel :=
